@@ -12,7 +12,7 @@ git -C /repo worktree add --detach $WT HEAD >/dev/null 2>&1 || exit 3
 ( cd $WT && git apply "$PATCH" ) || { echo "PATCH DOES NOT APPLY"; git -C /repo worktree remove --force $WT; exit 3; }
 ( cd $WT && go build ./... && go test -count=1 ./... >/dev/null 2>&1 ) && echo "mutant compiles, repo tests pass" || { echo "MUTANT BREAKS BUILD OR TESTS"; }
 for c in "$@"; do
-  VERIF_REPO=$WT python3 /verif/check.py $c > /tmp/mut-$NAME-$c.log 2>&1
+  VERIF_EVIDENCE_DIR=/var/tmp/mut-evidence VERIF_REPO=$WT python3 /verif/check.py $c > /tmp/mut-$NAME-$c.log 2>&1
   rc=$?
   echo "check $c -> exit $rc: $(grep -c '^VIOLATION' /tmp/mut-$NAME-$c.log) violation line(s), $(grep -c '^ERROR' /tmp/mut-$NAME-$c.log) error line(s)"
   grep -E "^counterexample" /tmp/mut-$NAME-$c.log | head -4
